@@ -425,7 +425,7 @@ def strat_model():
         S.units(), S.ads_T(), S.material(), st.sampled_from(["Langmuir", "Henry", "Toth", "DSLangmuir", "BET"]),
         st.floats(0.01, 100).map(lambda x: round(x, 6)), st.floats(0.1, 50).map(lambda x: round(x, 6)),
         st.sampled_from(["same_rebuild", "same_dict", "param", "param_last_digits", "param_small_magnitude", "param_in_place", "model_name", "range",
-                         "rmse", "meta", "unit", "param_int_literals", "param_int_literals"]),
+                         "rmse", "meta", "unit", "param_int_literals", "param_int_literals", "fit_table_labels"]),
         st.dictionaries(st.sampled_from(["user", "k1", "comment"]), st.one_of(st.integers(0, 5), st.text("abc", max_size=3)), max_size=2))
 
 
@@ -505,6 +505,26 @@ def check_model(desc, ctx):
     elif f == "meta":
         b = _miso(desc, _model(desc), meta=dict(desc["meta"], user="changed-user"))
         same = desc["meta"].get("user") == "changed-user"
+    elif f == "fit_table_labels":
+        # model isotherms FITTED from a table (no branch column: the branches are guessed) whose rows carry default labels
+        # vs the same rows under other labels (left over from a slice, a sort, point numbers, text)
+        import pandas as pd
+        nm, kk = desc["n_m"], 0.4
+        pa = [0.2, 0.5, 1.0, 2.0, 3.5, 5.0, 7.0]
+        pdn = [6.0, 4.0, 2.5, 1.2, 0.6]
+        la = [nm * kk * x / (1 + kk * x) for x in pa]
+        ld = [nm * 1.05 * 3 * kk * x / (1 + 3 * kk * x) for x in pdn]
+        n = len(pa) + len(pdn)
+        k = int(desc["K"] * 1e6)
+        labels = [list(range(3, n + 3)), list(range(n - 1, -1, -1)), [f"pt{i}" for i in range(n)],
+                  [int(v) for v in np.random.default_rng(k).permutation(n)]][k % 4]
+        br = ["ads", "des"][(k // 4) % 2]
+        kw = dict(material=K.build_material(desc["material"]), adsorbate=desc["adsorbate"], temperature=desc["T"],
+                  pressure_key="pressure", loading_key="loading", model="Langmuir", branch=br, **desc["units"])
+        a = pygaps.ModelIsotherm(isotherm_data=pd.DataFrame({"pressure": pa + pdn, "loading": la + ld}), **kw)
+        b = pygaps.ModelIsotherm(isotherm_data=pd.DataFrame({"pressure": pa + pdn, "loading": la + ld}, index=labels), **kw)
+        ctx.label("fit_table_labels:" + ["shifted", "reversed", "text", "permuted"][k % 4])
+        same = True
     else:
         u = dict(desc["units"])
         u["temperature_unit"] = "°C" if u["temperature_unit"] == "K" else "K"
